@@ -403,14 +403,14 @@ theorem logK_searchLoop_emacs (hvi : cfg.vi = false) (c0 : Changeset) (backup : 
     refine wp_refreshPromptAndLine S U cfg (fun s2 hc2 => ?_) (fun _ _ _ => trivial)
     refine loopI_nextCmd S U cfg hvi (hs.of_core S U hc2) (fun cmd s3 hs3 _ => ?_)
     rw [wp_lowerMark, Nat.min_eq_left (Nat.le_of_lt hs3.1.facts.1)]
-    have hds : ∀ (sb : Text) (hi : Nat) (d : Dir),
+    have hds : ∀ (sb : Text) (hi hi0 : Nat) (d : Dir),
         wp (match (memHist cfg).search sb hi d with
             | some (idx, entry, pos) => do
               lb S U (LB.update S U entry pos)
               searchLoop S U cfg c0.undos.length backup backupPos fuel sb idx d true
-            | none => searchLoop S U cfg c0.undos.length backup backupPos fuel sb hi d false)
+            | none => searchLoop S U cfg c0.undos.length backup backupPos fuel sb hi0 d false)
           (fun _ s' => UndoLogInv s') (fun _ _ => True) s3 := by
-      intro sb hi d
+      intro sb hi hi0 d
       cases (memHist cfg).search sb hi d with
       | none => exact ih _ _ _ _ s3 hs3
       | some r =>
@@ -418,13 +418,13 @@ theorem logK_searchLoop_emacs (hvi : cfg.vi = false) (c0 : Changeset) (backup : 
         simp only [wp_bind]
         exact loopI_lb_update S U entry pos hs3 (fun s4 hs4 _ => ih _ _ _ _ s4 hs4)
     split
-    · exact hds _ _ _
+    · exact hds _ _ _ _
     · exact ih _ _ _ _ s3 hs3
     · split
-      · exact hds _ _ _
+      · exact hds _ _ _ _
       · exact ih _ _ _ _ s3 hs3
     · split
-      · exact hds _ _ _
+      · exact hds _ _ _ _
       · exact ih _ _ _ _ s3 hs3
     · simp only [wp_bind]
       refine loopI_lb_update S U backup backupPos hs3 (fun s4 hs4 hb4 => ?_)
